@@ -243,6 +243,23 @@ class CharClass:
         return 'CharClass(%s, %d intervals, %d chars)' % (self.name, len(self.intervals), self.size())
 
 
+class _Negative(CharClass):
+    """all negative integers (spec-side markers; never a Python code point)"""
+
+    def __init__(self):
+        CharClass.__init__(self, [(-(1 << 62), -1)], 'negative-marker')
+
+    def contains(self, c):
+        if isinstance(c, int):
+            return c < 0
+        if z3.is_int_value(c):
+            return z3.BoolVal(c.as_long() < 0)
+        return c < 0
+
+
+NEGATIVE = _Negative()
+
+
 # ---------------------------------------------------------------------------------------------
 # folds
 
